@@ -9,7 +9,8 @@ Dom == [
                "two-cookies", "same-name-other-path",
                \* Domain attributes a compliant jar has to refuse or scope: a public suffix, a foreign domain, a parent domain
                "domain-public-suffix", "domain-foreign", "domain-parent", "samesite", "expires-future", "maxage-zero-then-set"},
-  extra   |-> {"none", "one", "two", "same-name-as-jar"} ]
+  extra   |-> {"none", "one", "two", "same-name-as-jar",
+               "two-lines", "three-lines-session-last"} ]      \* the client's cookies spread over several Cookie header lines
 VARIABLE x
 GInit == x = 0
 GNext == x' = x
